@@ -26,6 +26,7 @@ type Prog struct {
 	repo          string
 	recCache      map[*ssa.Function]bool
 	immutable     map[string]bool
+	errGlobals    map[string]int
 	globalInit    map[string]string
 }
 
@@ -156,13 +157,59 @@ func (p *Prog) scanGlobals() {
 			}
 		}
 	}
+	p.errGlobals = map[string]int{}
+	var names []string
 	for _, sp := range p.ssaProg.AllPackages() {
 		for name, m := range sp.Members {
 			if g, ok := m.(*ssa.Global); ok && !written[g] {
-				p.immutable[sp.Pkg.Name()+"."+name] = true
+				full := sp.Pkg.Name() + "." + name
+				p.immutable[full] = true
+				if _, isIface := g.Type().(*types.Pointer).Elem().Underlying().(*types.Interface); isIface && types.TypeString(g.Type().(*types.Pointer).Elem(), nil) == "error" {
+					// with a body: require an errors.New/fmt.Errorf initialiser; without (library): exported error values
+					if init := sp.Func("init"); init != nil && len(init.Blocks) > 0 {
+						if initialisedWithNewError(init, g) {
+							names = append(names, full)
+						}
+					} else if ast.IsExported(name) {
+						names = append(names, full)
+					}
+				}
 			}
 		}
 	}
+	sort.Strings(names)
+	for i, n := range names {
+		p.errGlobals[n] = i + 1
+	}
+}
+
+func initialisedWithNewError(init *ssa.Function, g *ssa.Global) bool {
+	for _, b := range init.Blocks {
+		for _, in := range b.Instrs {
+			st, ok := in.(*ssa.Store)
+			if !ok || st.Addr != ssa.Value(g) {
+				continue
+			}
+			v := st.Val
+			for {
+				switch x := v.(type) {
+				case *ssa.MakeInterface:
+					v = x.X
+					continue
+				case *ssa.ChangeInterface:
+					v = x.X
+					continue
+				case *ssa.Call:
+					if c := x.Call.StaticCallee(); c != nil {
+						n := funcKeyQualified(c)
+						return n == "errors.New" || n == "fmt.Errorf"
+					}
+				}
+				return false
+			}
+		}
+	}
+	return false
 }
 
 func (p *Prog) immutableGlobal(name string) bool { return p.immutable[name] }
